@@ -3,9 +3,10 @@ CONSTANTS
   MaxEvents = 3
   Faithful = FALSE
   Macro = FALSE
+  EnvAts = {1, 2, 3}
   EnvFaults = {"401", "500"}
   BodyFaults = {"gzip", "gziptrunc", "zstd"}
   ParseFaults = {"garbage", "truncated", "ctype"}
-INVARIANTS TypeOK ErrorMeansNoEffects SuccessMeansAllTried PerEventExact NoListElsewhere ExactlyOneStatus EffectsAreTheEvents FaultFreeSucceeds FaultMeansError
+INVARIANTS TypeOK ErrorMeansNoEffects SuccessMeansAllTried PerEventExact NoListElsewhere ExactlyOneStatus EffectsAreTheEvents FaultFreeSucceeds FaultMeansError BatchesInOrder
 PROPERTIES NothingAfterAnswer StatusStable Answered
 CHECK_DEADLOCK FALSE
